@@ -75,7 +75,10 @@ class one_space_line:
             elif self.parts[0] == "#":
                 res = "CPP_DIRECTIVE"
         elif self.parts[:2] == [" ", "#"] or self.parts[0] == "#":
-            res = "CPP_DIRECTIVE"
+            # A line whose first token is ## is not a directive.
+            first = self.parts.index("#")
+            if self.parts[first + 1 : first + 2] != ["#"]:
+                res = "CPP_DIRECTIVE"
         return res
 
     def flush(self):
